@@ -85,6 +85,23 @@ func nilableResult(fn *ssa.Function) bool {
 }
 
 func runC08(c *Ctx, r *Report) {
+
+	if !r.Sub {
+		r.Rule("C16.R5", "(shared with C15) an unfinished token is not the end of the input: in file mode the failed-read edge of readString does not return the end marker")
+		sub := NewReport("C15", r.Tier, c)
+		sub.Sub = true
+		runC15(c, sub)
+		for _, o := range sub.Obls {
+			if o.Rule != "C16.R5" {
+				continue
+			}
+			if o.status == FAIL {
+				r.Fail(o.Rule, o.Func, o.Desc, o.Pos, o.Reason)
+			} else {
+				r.Ok(o.Rule, o.Func, o.Desc, o.Pos)
+			}
+		}
+	}
 	r.Rule("C08.R1", "nil discipline: in every parser function returning a node, block or node list, every path to `return nil` passes an error append, a continuationNeeded=true, the false edge of expectPeek, the true edge of a continuationNeeded test, or the nil edge of a result of another parser function that obeys this rule (one named exception: parseExpression when the peek token is =>)")
 	r.Rule("C08.R2", "progress: every loop of the lexer advances the position on every cycle and has an exit that is taken on byte 0 (predicates evaluated at 0); every loop of the parser shifts a token on every cycle and, evaluated with cur=peek=end-of-file (and end-of-line), cannot complete a cycle")
 	r.Rule("C08.R3", "clamped error rendering: every strings.Repeat count in the front end is proven non-negative (max(0,..) or a dominating test); CurrentLine slices the input with clamped bounds")
